@@ -45,6 +45,7 @@ class GTr:
         if k == 'int': return '(fofZ %d)' % n.v
         if k == 'var':
             nm = n.name
+            if nm in getattr(self, 'blockenv', {}): return self.blockenv[nm]
             c = self.cfg['consts'].get(nm)
             if c: return c
             if nm == 'self': return 'self_'
@@ -63,6 +64,18 @@ class GTr:
             raise TranslationError('gadget binary operator %s' % n.op)
         if k == 'tuple': return '(%s)' % ', '.join(self.e(x) for x in n.items)
         if k == 'closure': return self.e(n.body)
+        if k == 'blockexpr':      # a block used as a value (the body of a witness closure): lets + tail expression, no constraints of its own
+            # local lets are inlined (by substitution), so that a side condition raised inside (the inverse must exist) is expressed
+            # over the variables of the enclosing scope
+            saved = dict(getattr(self, 'blockenv', {})); self.blockenv = dict(saved)
+            try:
+                for st in n.body:
+                    if st.k == 'let' and st.pat.k == 'pvar': self.blockenv[st.pat.name] = self.e(st.e)
+                    elif st.k == 'exprstmt': return self.e(st.e)
+                    else: raise TranslationError('statement in a value block')
+                raise TranslationError('value block without tail expression')
+            finally:
+                self.blockenv = saved
         if k == 'mcall':
             m = n.name
             if m in ('clone', 'cs'): return self.e(n.e) if m == 'clone' else 'tt'
@@ -70,6 +83,7 @@ class GTr:
             if m == 'value': return x
             if m == 'unwrap_or': return x
             if m == 'square': return '(%s * %s)' % (x, x)
+            if m == 'double': return '(%s + %s)' % (x, x)
             if m == 'negate': return '(- (%s))' % x
             if m == 'inverse':
                 self.pre.append('negb (feqb %s 0)' % x); return '(inv %s)' % x
@@ -94,7 +108,8 @@ class GTr:
             if f in ('FqVar::one',): return '1'
             if f in ('FqVar::constant',): return self.e(n.args[0])
             if f in ('FqVar::new_constant',): return self.e(n.args[1])
-            if f in ('Boolean::new_witness', 'FqVar::new_witness'): return self.e(n.args[1])
+            if f in ('Boolean::new_witness', 'FqVar::new_witness', 'F::new_witness'): return self.e(n.args[1])
+            if f in ('P::BaseField::one',): return '1'
             if f == 'FqVar::conditionally_select':
                 c, a, b = [self.e(x) for x in n.args]; return '(if %s then %s else %s)' % (c, a, b)
             if f in ('Fq::sqrt_ratio_zeta',):
@@ -109,6 +124,7 @@ class GTr:
             if set(d) == {'inner'}: return self.e(d['inner'])
         if k == 'field':
             if n.name in ('x', 'y') and n.e.k == 'field' and n.e.name == 'inner': return 'self_' + n.name
+            if n.name in ('x', 'y') and n.e.k == 'var' and n.e.name in ('this', 'other', 'self'): return '%s_%s' % (n.e.name, n.name)
             raise TranslationError('gadget field .%s' % n.name)
         raise TranslationError('gadget expression kind %s' % k)
     def pat(self, p):
@@ -132,6 +148,10 @@ class GTr:
                 a, b = s.pat.items
                 if a.k == 'pvar': self.ty[a.name] = 'B'
             return pre + 'let %s := %s in\n    %s' % (self.pat(s.pat), rhs, self.stmts(rest))
+        if s.k == 'assign' and s.lhs.k == 'field' and s.lhs.e.k == 'var' and s.lhs.e.name == 'self' and s.op == '=':
+            rhs = self.e(s.rhs); pre = self.flush()
+            if not rest: return pre + 'let self_%s := %s in\n    (sat, (self_x, self_y))' % (s.lhs.name, rhs)
+            return pre + 'let self_%s := %s in\n    %s' % (s.lhs.name, rhs, self.stmts(rest))
         if s.k == 'assign':
             v = s.lhs.name if s.lhs.k == 'var' else None
             if v is None: raise TranslationError('gadget assignment target')
@@ -149,6 +169,9 @@ class GTr:
                 a = self.e(inner.e); b = self.e(inner.args[0]); c = self.e(inner.args[1]); pre = self.flush()
                 cond = 'implb %s (feqb %s %s)' % (c, a, b)
                 return pre + 'let sat := sat && (%s) in\n    %s' % (cond, self.stmts(rest))
+            if inner.k == 'mcall' and inner.name == 'mul_equals':      # x.mul_equals(a, b): x * a = b
+                x = self.e(inner.e); a = self.e(inner.args[0]); b = self.e(inner.args[1]); pre = self.flush()
+                return pre + 'let sat := sat && (feqb (%s * %s) %s) in\n    %s' % (x, a, b, self.stmts(rest))
             if inner.k == 'mcall' and inner.name == 'enforce_equal':
                 a = self.e(inner.e); b = self.e(inner.args[0]); pre = self.flush()
                 cond = a if b == 'true' else '(Bool.eqb %s %s)' % (a, b)
@@ -159,7 +182,7 @@ class GTr:
             raise TranslationError('gadget expression statement')
         raise TranslationError('gadget statement kind %s' % s.k)
 
-CONSTS = {'ZETA': 'zeta', 'Fq::ONE': '1', 'Decaf377EdwardsConfig::COEFF_A': 'cA', 'Decaf377EdwardsConfig::COEFF_D': 'cD', 'D4': 'D4'}
+CONSTS = {'P::COEFF_A': 'cA', 'P::COEFF_D': 'cD', 'ZETA': 'zeta', 'Fq::ONE': '1', 'Decaf377EdwardsConfig::COEFF_A': 'cA', 'Decaf377EdwardsConfig::COEFF_D': 'cD', 'D4': 'D4'}
 GTARGETS = [
   ('isqrt_gen', 'src/ark_curve/r1cs/fqvar_ext.rs', 'isqrt', 'impl FqVarExtension for FqVar', '(self_ : F) (hint_ws : bool) (hint_y : F) : bool * (bool * F)', {}),
   ('decode_gen', 'src/ark_curve/r1cs/inner.rs', 'decompress_from_field', None, '(s_var : F) (hint_ws : bool) (hint_y : F) : bool * (F * F)', {}),
@@ -195,6 +218,43 @@ def split_constant_path(body):
         k += 1
     return m.group(1), body[i + 1:k], body[:m.start()] + body[k + 1:]
 
+def r1cs_std_dir():
+    import glob
+    lock = open(os.path.join(REPO, 'Cargo.lock')).read()
+    m = re.search(r'name = "ark-r1cs-std"\s*\nversion = "([^"]+)"', lock)
+    if not m: raise TranslationError('ark-r1cs-std not found in Cargo.lock')
+    home = os.environ.get('CARGO_HOME', os.path.expanduser('~/.cargo'))
+    ds = sorted(glob.glob(os.path.join(home, 'registry', 'src', '*', 'ark-r1cs-std-' + m.group(1))))
+    if not ds: raise TranslationError('ark-r1cs-std-%s sources not found in the cargo registry' % m.group(1))
+    return ds[0], m.group(1)
+
+def braces(src, j):
+    d = 0; k = j
+    while True:
+        if src[k] == '{': d += 1
+        elif src[k] == '}':
+            d -= 1
+            if d == 0: return k
+        k += 1
+
+def affinevar_bodies():
+    """the non-constant branches of AffineVar + AffineVar and AffineVar::double_in_place of the DEPENDENCY ark-r1cs-std (twisted Edwards)"""
+    d, ver = r1cs_std_dir()
+    src = strip_comments(open(os.path.join(d, 'src/groups/curves/twisted_edwards/mod.rs')).read())
+    def clean(b):
+        b = re.sub(r'let cs = [^;]*;', '', b)
+        b = re.sub(r'ark_relations::ns!\(cs, "[^"]*"\)', 'cs', b)
+        b = b.replace('.ok_or(SynthesisError::DivisionByZero)?', '').replace('.unwrap()', '')
+        return b
+    i = src.index("AddAssign,\n    add_assign,\n    |this: &'a AffineVar<P, F>, other: &'a AffineVar<P, F>| {")
+    j = src.index('{', i); body = src[j + 1:braces(src, j)]
+    e = body.index('} else {'); j2 = e + len('} else ')
+    add = body[j2 + 1:braces(body, j2)]
+    _, dbl = find_fn(src, 'double_in_place', 'impl<P, F> CurveVar<TEProjective<P>')
+    e = dbl.index('} else {'); j2 = e + len('} else ')
+    dbl = dbl[j2 + 1:braces(dbl, j2)]
+    return ver, clean(add), clean(dbl)
+
 def parse_with_hooks_skipped(body):
     # drop statements guarded by #[cfg(decaf377_verif)]
     body = re.sub(r'#\[cfg\(decaf377_verif\)\]\s*let[^;]*;', '', body)
@@ -220,12 +280,23 @@ def main(outdir):
         except (TranslationError, ValueError, IndexError, KeyError) as e:
             errors.append('%s (%s::%s): %r' % (name, path, fn, e))
             parts.append('  (* TRANSLATION FAILED for %s: %s *)\n' % (name, str(e).replace('*)', '* )')))
+    # the dependency: ark-r1cs-std AffineVar arithmetic used by every element operation of the gadgets
+    try:
+        ver, addb, dblb = affinevar_bodies()
+        parts.append('  (* ark-r1cs-std %s, twisted_edwards::AffineVar: non-constant branches of `+` and `double_in_place` *)' % ver)
+        g = GTr({'consts': CONSTS}); val = g.stmts(parse_body(addb))
+        parts.append('  Definition affinevar_add_gen (this_x this_y other_x other_y : F) : bool * (F * F) :=\n    let sat := true in\n    %s.\n' % val)
+        g = GTr({'consts': CONSTS}); val = g.stmts(parse_body(dblb))
+        parts.append('  Definition affinevar_double_gen (self_x self_y : F) : bool * (F * F) :=\n    let sat := true in\n    %s.\n' % val)
+    except (TranslationError, ValueError, IndexError, KeyError) as e:
+        errors.append('affinevar (ark-r1cs-std): %r' % e)
+        parts.append('  (* TRANSLATION FAILED for affinevar: %s *)\n' % str(e).replace('*)', '* )'))
     parts.append('End GeneratedGadgets.\n')
     txt = '\n'.join(parts); out = os.path.join(outdir, 'GadgetsGen.v')
     old = open(out).read() if os.path.exists(out) else None
     if old != txt: open(out, 'w').write(txt)
     for e in errors: print('TRANSLATION-ERROR ' + e)
-    print('rs2v_gadgets: %d gadgets, %d errors -> %s' % (len(GTARGETS), len(errors), out))
+    print('rs2v_gadgets: %d gadgets, %d errors -> %s' % (len(GTARGETS) + 2, len(errors), out))
     return 1 if errors else 0
 
 if __name__ == '__main__':
